@@ -129,6 +129,27 @@ def run(ctx):
                 mother = rng.choice([n for n in names if gen.safe_label(n) and charge_conjugate_name(n) not in (n, wrapped(n)) and gen.safe_label(charge_conjugate_name(n))])
                 cm = charge_conjugate_name(mother)
                 text = f"Decay {mother}\n0.5 {' '.join(safe)} PHSP;\nEnddecay\nCDecay {cm}\n"
+                unknown = [d for d in safe if d in ("Zork", "MyX")]
+                if unknown and rng.random() < 0.7:
+                    # the same decay in a file that declares partners for the unknown labels (either orientation), read first in the
+                    # same process: there the declared partner is the conjugate; the file without declarations is read afterwards
+                    decl, part = [], {}
+                    for u in dict.fromkeys(unknown):
+                        part[u] = "anti" + u
+                        decl.append(f"ChargeConj {u} anti{u}" if rng.random() < 0.5 else f"ChargeConj anti{u} {u}")
+                    text0 = "\n".join(decl) + "\n" + text
+                    try:
+                        p0 = DecFileParser.from_string(text0)
+                        p0.parse()
+                        got0 = sorted(p0.list_decay_modes(cm)[0])
+                    except Exception as e:
+                        got0 = f"{type(e).__name__}: {e}"
+                    want0 = sorted(part.get(d) or charge_conjugate_name(d) for d in safe)
+                    res.case()
+                    res.count("cdecay_agreement_declared")
+                    if got0 != want0:
+                        res.violation("CDecay table does not use the declared partners of user labels", {"kind": "cdecay-agree", "text": text0}, impl=got0, model=want0,
+                                      clause="agreement with CDecay")
                 try:
                     p = DecFileParser.from_string(text)
                     p.parse()
